@@ -289,3 +289,11 @@ Fixpoint enum_free (v : fv) : bool :=
   | List l => forallb enum_free l
   | _ => true
   end.
+(* same, with the display text hex-encoded (for base names with arbitrary bytes) *)
+Definition show_ty_hex (t : ty) : string := hex (ty_display t) ++ "#" ++ dn (tmask t).
+
+(* names that survive the text round trip: the parser must not mistake their ends for syntax
+   (not ending in '!', not starting with '['); proved sufficient and necessary in TyProofs.v *)
+Definition name_ok (s : string) : bool :=
+  match strip_suffix_char "!" s with Some _ => false | None => true end &&
+  match strip_prefix_char "[" s with Some _ => false | None => true end.
